@@ -79,6 +79,7 @@ type Machine struct {
 	reportInReplay bool
 	witnessDone    *sync.Map
 	NoDomain       bool
+	minmaxUnsigned bool
 	LenientSprintf bool
 	lastIf         *ssa.If
 	forkSites      map[string]int
